@@ -52,6 +52,7 @@ func runC03(c *core.Ctx) {
 		c.Check(bad == "", "C03.primitives", "doc/serialization", token.NoPos, fmt.Sprintf("%d documented scalar widths agree with type/basic", len(doc)), bad)
 	}
 
+	rulePrimitiveCopies(c)
 	c.Doc("C03.constructors", "signature type constructors: letter ↔ IDL ↔ reader width ↔ Go type ↔ template primitives ↔ documented width", 11)
 	ruleConstructors(c, prims)
 
@@ -83,6 +84,7 @@ func runC03(c *core.Ctx) {
 
 func ruleConstructors(c *core.Ctx, prims map[string]*primInfo) {
 	ruleConstructorsAs(c, prims, "C03.constructors")
+	ruleReaderWidthTables(c, "C03.constructors")
 }
 
 func ruleConstructorsAs(c *core.Ctx, prims map[string]*primInfo, rule string) {
@@ -706,4 +708,9 @@ func constString(k *types.Const) string {
 		return u
 	}
 	return s
+}
+
+// rulePrimitiveCopies: fixed-size buffers of the primitives hold what is copied into them.
+func rulePrimitiveCopies(c *core.Ctx) {
+	ruleCopyFits(c, "C03.primitives", "type/basic", "bus/net")
 }
